@@ -27,7 +27,16 @@ def arg_slice(E, name):
         if end is None and any(re.search(r"\(%s\.%d: " % (re.escape(local), ia + 1), st_) for st_ in blk["stmts"]):
             end = bb
     if end is None:
-        return None
+        # straight-line handling: the next option is read later in the SAME block - cut the block there
+        stmts = body.blocks[start]["stmts"]
+        first = next(k for k, st_ in enumerate(stmts) if re.search(r"\(%s\.%d: " % (re.escape(local), ia), st_))
+        cut = next((k for k, st_ in enumerate(stmts) if k > first and re.search(r"\(%s\.%d: " % (re.escape(local), ia + 1), st_)), None)
+        if cut is None:
+            return None
+        b2 = copy.copy(body)
+        b2.blocks = dict(body.blocks)
+        b2.blocks["bb0"] = {"cleanup": False, "stmts": stmts[first:cut] + ["return;"]}
+        return b2, local, ia, start, start
     b2 = copy.copy(body)
     b2.blocks = dict(body.blocks)
     b2.blocks["bb0"] = {"cleanup": False, "stmts": ["goto -> %s;" % start]}
@@ -113,6 +122,51 @@ def check_cli_number(res, E, mprop, name, flag, optional, consequence):
             res.violation("mir:cli-%s-not-applied" % name.replace("_", "-"), "the command line's %s is not applied as given (%s): %s" % (flag, what, consequence), fn)
             break
     res.distinct += n
-    if n < 2:
+    if n < 1:
+        res.inconclusive.append("vacuity: %s slice has %d returning paths" % (flag, n))
+    return n
+
+
+def check_cli_flag(res, E, mprop, name, flag, consequence):
+    """A switch: given => the setting is on afterwards, absent => the configured value stays (a switch on the
+    command line never turns a setting off, and an absent one never turns it on)."""
+    import z3
+    sl = arg_slice(E, name)
+    if sl is None:
+        res.inconclusive.append("apply_arg_matches: the blocks handling %s were not found" % flag)
+        return 0
+    b2, local, ia, start, end = sl
+    res.functions.append("routinator::config::Config::apply_arg_matches, slice %s..%s handling %s (MIR)" % (start, end, flag))
+    cf = mir.struct_fields("Config", "src/config.rs")
+    ic = cf.index(name)
+    selfp = mir.Opq("&mut Config", "self")
+    base = (("o", selfp.id), "deref", ("f", ic))
+    c0 = z3.Bool("configured_%s" % name)
+    given = z3.Bool("given_%s" % name)
+
+    def pre(E_, st, frame):
+        st.mem[base] = c0
+        st.mem[("F1:%s" % local, ("f", ia))] = given
+    n = 0
+    for i, p in enumerate(E.explore(b2, max_visits=2, arg_values={"_1": {(): selfp}}, pre=pre, max_paths=200)):
+        if p.kind != "return":
+            continue
+        n += 1
+        post = p.mem.get(base)
+        if isinstance(post, bool):
+            post = z3.BoolVal(post)
+        if not (mir.is_z(post) and z3.is_bool(post)):
+            res.inconclusive.append("apply_arg_matches %s slice path %d: the setting is not a Boolean afterwards (%r)" % (flag, i, post))
+            continue
+        m = E.model(p.cond, z3.Not(post == z3.Or(given, c0)))
+        if m is not None:
+            what = "%s %s with the setting configured %s leaves it %s" % (
+                flag, "given" if z3.is_true(m.eval(given, True)) else "absent", "on" if z3.is_true(m.eval(c0, True)) else "off",
+                "on" if z3.is_true(m.eval(post, True)) else "off")
+            fn = mprop.write_cex(res, "cli_%s_%d" % (name, i), p, E, what, m)
+            res.violation("mir:cli-%s-not-applied" % name.replace("_", "-"), "the command line's %s is not applied as documented (%s): %s" % (flag, what, consequence), fn)
+            break
+    res.distinct += n
+    if n < 1:
         res.inconclusive.append("vacuity: %s slice has %d returning paths" % (flag, n))
     return n
